@@ -86,6 +86,17 @@ structure ReduceSpec where
 def ReduceSpec.fn (r : ReduceSpec) : List Rat → Rat :=
   fun xs => match r.red with | some f => f.apply xs | none => mean xs
 
+/-! Primitives the statement-by-statement translation of `BlockReduce.filter` / `_block_coordinates` (Gen/Blocks.lean) is written in: the
+    pandas contract `DataFrame(columns).groupby("block").aggregate(f)` = per occupied block, in ascending block order, `f` of that block's
+    members in input order (a function given per column applies to that column; `attach_weights(f, w)` hands `f` the members' own weights). -/
+def groupAgg (keys labels : List Nat) (col : List Rat) (f : List Rat → Rat) : List Rat :=
+  keys.map fun k => f (groupMembers labels col k)
+def groupAggW (keys labels : List Nat) (col w : List Rat) (f : List (Rat × Rat) → Except Err Rat) : Except Err (List Rat) :=
+  keys.mapM fun k => f (groupMembers labels (col.zip w) k)
+/-- `reduction(values, weights=w)`: only `numpy.average` takes weights (`TypeError` otherwise). -/
+def ReduceSpec.fnW (r : ReduceSpec) : List (Rat × Rat) → Except Err Rat :=
+  fun vw => match r.red with | some _ => .error .typeError | none => wavg vw
+
 /-- `BlockReduce.filter`.  `coords` = all coordinate arrays (first two are easting/northing), `data` = components,
     `weights` = none or one weight array per component.  Returns (block coordinates, block data). -/
 def blockReduce (coords : List (List Rat)) (data : List (List Rat)) (weights : Option (List (List Rat)))
@@ -97,10 +108,8 @@ def blockReduce (coords : List (List Rat)) (data : List (List Rat)) (weights : O
   let red : List Rat → Rat := r.fn
   let outData ← match weights with
     | none => pure (data.map fun d => keys.map fun k => red (groupMembers labels d k))
-    | some ws =>
-      match r.red with
-      | some _ => Except.error Err.typeError      -- reduction(values, weights=…) unsupported
-      | none => (data.zip ws).mapM fun (d, w) => keys.mapM fun k => wavg (groupMembers labels (d.zip w) k)
+    | some ws =>      -- reduction(values, weights=…): a TypeError for every reduction but numpy.average, raised when the first block is reduced
+      (data.zip ws).mapM fun (d, w) => keys.mapM fun k => r.fnW (groupMembers labels (d.zip w) k)
   let cs := if r.dropCoords then coords.take 2 else coords
   let outCoords := cs.mapIdx fun i c =>
     if r.centre && i < 2 then keys.map fun k => (if i = 0 then (centres.getD k (0, 0)).1 else (centres.getD k (0, 0)).2)
